@@ -32,21 +32,25 @@ Proof. exact trk_inv_empty. Qed.
 Theorem c08_inv_step : forall t o, trk_inv t -> trk_inv (apply_top t o).
 Proof. exact apply_top_inv. Qed.
 
-(** EXEC with a modified (or expired) watched key returns nil and executes nothing;
-    with none modified it runs the queue. *)
+(** EXEC with a modified (or expired) watched key returns nil and executes nothing; with
+    none modified it runs the queue.  Each key is checked in the database it was watched in,
+    whatever database the connection has selected since (a5f65e9). *)
 Theorem c08_exec_aborts :
-  forall now s c cn k b,
-  c_intx cn = true -> In (k, b) (c_watched cn) -> was_modified_since now s (c_db cn) k b = true ->
+  forall now s c cn dbw k b,
+  c_intx cn = true -> In (wkey dbw k, b) (c_watched cn) -> was_modified_since now s dbw k b = true ->
   h_exec now s c cn = (FNullArray, set_conn s c (clear_tx cn)).
 Proof. exact exec_aborts. Qed.
 Theorem c08_exec_runs :
   forall now s c cn,
   c_intx cn = true ->
-  (forall k b, In (k, b) (c_watched cn) -> was_modified_since now s (c_db cn) k b = false) ->
+  (forall w b, In (w, b) (c_watched cn) -> was_modified_since now s (wkey_db w) (wkey_key w) b = false) ->
   h_exec now s c cn =
-    match exec_queue now (set_conn s c (clear_tx cn)) (c_db cn) (c_queue cn) [] with
+    match exec_queue now (set_conn s c (clear_tx cn)) c (c_db cn) (c_queue cn) [] with
     | (reps, s2) => (FArray reps, s2) end.
 Proof. exact exec_runs. Qed.
+(** the encoding of (database, key) pairs is exact *)
+Theorem c08_wkey_exact : forall d k, wkey_db (wkey d k) = d /\ wkey_key (wkey d k) = k.
+Proof. intros; split; reflexivity. Qed.
 
 (** Every command of the string/key family marks every key whose entry (value, deadline,
     existence) it changes: a key that is not marked has exactly the entry it had - for all
@@ -117,10 +121,10 @@ Example c08_example :
   fst (process_frame 0 s5 1 (FArray [FBulk (bs "EXEC")]) None) = FNullArray.
 Proof. vm_compute. reflexivity. Qed.
 
-(** known finding unwatch-other-db: UNWATCH decrements the watcher count of the database
-    selected NOW, not of the one the WATCH was registered in; connection 2's watch in
-    database 0 is disabled by connection 1 and its EXEC runs although k changed *)
-Example c08_unwatch_other_db_refuted :
+(** the former finding unwatch-other-db (a5f65e9): UNWATCH unregisters each watch in the database it
+    was registered in; connection 1's UNWATCH no longer disables connection 2's watch in database
+    0, whose EXEC aborts because k changed *)
+Example c08_unwatch_other_db_repaired :
   let s0 := connect (connect (connect (init_server None) 1) 2) 3 in
   let step c s req := snd (process_frame 0 s c (FArray (map FBulk req)) None) in
   let s1 := step 2 s0 [bs "WATCH"; bs "k"] in
@@ -131,5 +135,18 @@ Example c08_unwatch_other_db_refuted :
   let s6 := step 3 s5 [bs "SET"; bs "k"; bs "changed"] in
   let s7 := step 2 s6 [bs "MULTI"] in
   let s8 := step 2 s7 [bs "SET"; bs "k"; bs "mine"] in
-  fst (process_frame 0 s8 2 (FArray [FBulk (bs "EXEC")]) None) = FArray [r_ok].
+  fst (process_frame 0 s8 2 (FArray [FBulk (bs "EXEC")]) None) = FNullArray.
+Proof. vm_compute. reflexivity. Qed.
+(** ... and a key watched in database 1 is checked in database 1 after SELECT 0 *)
+Example c08_watch_remembers_its_database :
+  let s0 := connect (connect (init_server None) 1) 2 in
+  let step c s req := snd (process_frame 0 s c (FArray (map FBulk req)) None) in
+  let s1 := step 1 s0 [bs "SELECT"; bs "1"] in
+  let s2 := step 1 s1 [bs "WATCH"; bs "k"] in
+  let s3 := step 1 s2 [bs "SELECT"; bs "0"] in
+  let s4 := step 2 s3 [bs "SELECT"; bs "1"] in
+  let s5 := step 2 s4 [bs "SET"; bs "k"; bs "changed"] in
+  let s6 := step 1 s5 [bs "MULTI"] in
+  let s7 := step 1 s6 [bs "PING"] in
+  fst (process_frame 0 s7 1 (FArray [FBulk (bs "EXEC")]) None) = FNullArray.
 Proof. vm_compute. reflexivity. Qed.
